@@ -106,6 +106,7 @@ class ExtendedEOF(EOF):
                 check_nans=False,
                 sample_name=self.sample_name,
                 feature_name=self.feature_name,
+                random_state=self._params["random_state"],
                 solver=self._params["solver"],
                 solver_kwargs=self._params["solver_kwargs"],
             )
@@ -146,6 +147,7 @@ class ExtendedEOF(EOF):
             check_nans=False,
             sample_name=self.sample_name,
             feature_name=self.feature_name,
+            random_state=self._params["random_state"],
             solver=self._params["solver"],
             solver_kwargs=self._params["solver_kwargs"],
         )
